@@ -526,11 +526,15 @@ def check(case, stats):
         stats.count('range_text:accepted')
         for h in got:
             cs_ = list(h)
-            if len(cs_) != 2 or len(set(cs_)) != 2 or not all(
-                    bool(c) for c in cs_):
+            # an accepted text denotes sets of real cards.  How many is not
+            # judged here: the parser also takes explicit card lists of any
+            # length ('AcKcQc'), and a list naming one card twice ('2c2c')
+            # collapses to a smaller set - the exact sets denoted by the rank
+            # notation are decided by the range cases
+            if not cs_ or not all(bool(c) for c in cs_):
                 return [V(ID, 'range', 'text_element',
                           f'parse_range({text!r}, {order}) contains {h!r}:'
-                          ' not two distinct real cards')]
+                          ' not a set of real cards')]
         if got:
             stats.count('nontrivial')
             stats.mark_nontrivial(('text', text, order))
